@@ -78,6 +78,10 @@ def run(F, R):
     if not isinstance(R, RuleProxy):
         from .C12 import bar_probe_rules
         bar_probe_rules(F, RuleProxy(R, {'B1': 'W7', 'B2': 'W7'}))
+        # W8: "the first suitable capability of each type" is relative to where the capability list starts: the capabilities
+        # pointer with its two reserved low bits cleared (C12.B4 list-start)
+        from .C12 import b4b_list_start
+        b4b_list_start(F, RuleProxy(R, {'B4': 'W8'}))
 
 
 # ------------------------------------------------------------------------------------------------ W3
